@@ -57,6 +57,8 @@ def _side(rng, mode=None):
         'window': rng.choice([1, 2, 3, 10, 62, 63, rng.randint(1, 63)]),
         'fcs': rng.random() < 0.4,
         'fcs_feature': True,
+        # MaxTransmit as announced in the retransmission option (0: no limit); it sits next to the window in that option
+        'max_retx': rng.choice([1, 1, 0, 3, 20, 255]),
     }
 
 
@@ -77,7 +79,10 @@ def gen_transfer(rng, tier, seed):
             continue
         total += size
         sdus.append([d, size])
-    return {'a': a, 'b': b, 'profile': rng.choice(PROFILES), 'sdus': sdus, 'burst': rng.random() < 0.7, '_lists': ['sdus']}
+    case = {'a': a, 'b': b, 'profile': rng.choice(PROFILES), 'sdus': sdus, 'burst': rng.random() < 0.7, '_lists': ['sdus']}
+    # afterwards, in some runs: request/response exchanges, more of them than the smaller window holds
+    case['echo'] = (min(a['window'], b['window']) + rng.choice([1, 3, 10])) if rng.random() < 0.25 else 0
+    return case
 
 
 class ErtmWire:
@@ -174,7 +179,7 @@ class ErtmWire:
 
 def _spec(l2cap, s):
     mode = l2cap.TransmissionMode.ENHANCED_RETRANSMISSION if s['mode'] == 'ertm' else l2cap.TransmissionMode.BASIC
-    return l2cap.ClassicChannelSpec(psm=PSM, mtu=s['mtu'], mps=s['mps'], tx_window_size=s['window'], mode=mode, fcs_enabled=s['fcs'])
+    return l2cap.ClassicChannelSpec(psm=PSM, mtu=s['mtu'], mps=s['mps'], tx_window_size=s['window'], max_retransmission=s.get('max_retx', 1), mode=mode, fcs_enabled=s['fcs'])
 
 
 def _world(sim, case):
@@ -273,6 +278,26 @@ def run_transfer(case):
             else:
                 k = next(i for i, (x, y) in enumerate(zip(got, exp)) if x != y)
                 sim.violation_once('corrupt', f'sdu-corrupted:{facts}:{who}', f'SDU #{k}: got {len(got[k])} bytes, wrote {len(exp[k])}')
+        # ---- request/response traffic: the acceptor's application answers every SDU from inside its sink, the initiator waits for
+        # the answer before it sends the next request; the acknowledgements then travel in the answering I-frames only
+        if case.get('echo') and not sim.violations:
+            answers = []
+            ch[0].sink = lambda sdu: answers.append(bytes(sdu))
+
+            def answer(sdu):
+                ch[1].write(b'A' + bytes(sdu)[:3])
+            ch[1].sink = answer
+            for k in range(case['echo']):
+                req = bytes([k & 0xFF, 0x5A, 0xA5])
+                sim.call(ch[0].write, req)
+                st = sim.loop.drive(lambda: len(answers) > k, vt_budget=60.0, step_budget=1_000_000)
+                if len(answers) <= k:
+                    sim.violation_once('echo', f'request-response-stalled:{facts}:after={"few" if k < 4 else "many"}-exchanges', f'exchange {k + 1} of {case["echo"]}: no answer ({st}); window {a["window"]}/{b["window"]}')
+                    break
+                if answers[k] != b'A' + req:
+                    sim.violation_once('echo', f'request-response-corrupted:{facts}', f'exchange {k + 1}: {answers[k].hex()}')
+                    break
+            sim.probe('request_response_exchanges')
         sim.trace.shape(a['mode'], fcs, a['window'] < 4, b['window'] < 4, wire[0].iframes if a['mode'] == 'ertm' else len(want[1]),
                         wire[1].iframes if a['mode'] == 'ertm' else len(want[0]))
         nontrivial = (sim.probes['window_full'] + sim.probes['txseq_wrapped'] > 0) if a['mode'] == 'ertm' else len(case['sdus']) > 1
